@@ -70,6 +70,8 @@ var c05RawSets = [][]string{
 	{"\xf0\x9f", "\x9f\x98\x80", "😀"},
 	{"\xef\xbf\xbd", "\xff", "\xef\xbf"},
 	{"a\xe4", "\xe4\xb8\xada", "\xad"},
+	{"\xef\xbf", "a"},
+	{"\xbf\xbd", "\xbd"},
 }
 
 func c05Try(t *T, family string, tc *trieCase) {
